@@ -295,6 +295,79 @@ def many_eventgroups(args):
     return count, viols
 
 
+def refresh_instant_requests(args):
+    """requests made at a refresh instant: before the timer of the refresh round (pre), in the same loop iteration after
+    it (post - the round is due, its task has not run yet), one iteration later; single calls and calls back-to-back
+    (stop+subscribe, stop+subscribe+stop, ...).  A server that applies the entries in the order they arrive ends up
+    holding exactly what is requested"""
+    sid, ttl, refresh = args
+    from ..vloop import VLoop
+    viols = []
+    n = 0
+    patterns = (("unsub", "sub"), ("sub2",), ("unsub",), ("unsub", "sub", "unsub"), ("unsub", "sub", "unsub", "sub"), ("sub2", "unsub2"),
+                ("unsub", "sub2", "sub"))
+    for pos in ("pre", "post", "post+1", "post+2"):
+        for pattern in patterns:
+            loop = VLoop().install()
+            seam = RandomSeam(Choice())
+            seam.__enter__()
+            try:
+                prot = make_sd(loop, timings(SUBSCRIBE_TTL=ttl, SUBSCRIBE_REFRESH_INTERVAL=refresh))
+                sub = prot.subscriber
+                srv = SRV["S1"]
+                eg = {1: cfg_.Eventgroup(sid, 1, 1, 1, ("192.0.2.100", 3000), hdr.L4Protocols.UDP),
+                      2: cfg_.Eventgroup(sid, 1, 1, 2, ("192.0.2.100", 3000), hdr.L4Protocols.UDP),
+                      3: cfg_.Eventgroup(sid, 1, 1, 3, ("192.0.2.100", 3000), hdr.L4Protocols.UDP)}
+                want = {1, 3}
+                sub.subscribe_eventgroup(eg[1], srv)
+                sub.subscribe_eventgroup(eg[3], srv)
+                sub.start()
+                loop.settle()
+                t_refresh = loop.next_timer()
+
+                def calls():
+                    import dataclasses
+                    for c in pattern:
+                        k = 2 if c.endswith("2") else 1
+                        if c.startswith("sub"):
+                            want.add(k)
+                            sub.subscribe_eventgroup(dataclasses.replace(eg[k]), srv)
+                        else:
+                            want.discard(k)
+                            sub.stop_subscribe_eventgroup(dataclasses.replace(eg[k]), srv)
+
+                loop.advance_to(t_refresh)
+                if pos == "pre":
+                    loop.iterate(pre=[calls])
+                elif pos == "post":
+                    loop.iterate(post=[calls])
+                else:
+                    for _ in range(int(pos[-1])):
+                        loop.iterate()
+                    loop.iterate(post=[calls])
+                loop.settle()
+                loop.run_until(t_refresh + refresh / 2)
+                n += 1
+                held = set()
+                for t, it, data, addr in prot.transport.sent:
+                    for msg in refcodec.dec_sd_datagram(data):
+                        for e in msg["entries"]:
+                            if e[0] == "subscribe" and addr == srv:
+                                (held.discard if e[4] == 0 else held.add)(e[5] & 0xFFFF)
+                if held != want:
+                    disc = "misses-requested" if want - held else "holds-unrequested"
+                    viols.append(("mirror", disc + "-at-refresh-instant",
+                                  f"calls {pattern} at the refresh instant t={t_refresh} ({pos}; TTL {ttl}, refresh {refresh}): the server "
+                                  f"holds eventgroups {sorted(held)}, requested {sorted(want)}", [pos, list(pattern)]))
+            except Exception as e:  # noqa: BLE001
+                viols.append(("no-exception", type(e).__name__ + "-at-refresh-instant", f"{pos} {pattern}: {type(e).__name__}: {e}",
+                              [pos, list(pattern)]))
+            finally:
+                seam.__exit__(None, None, None)
+                loop.dispose()
+    return n, viols
+
+
 def check(ctx):
     details, viols = [], []
     samples = core.Samples()
@@ -302,8 +375,16 @@ def check(ctx):
     for (sid_, n, ttl, refresh), (_, vs) in zip(jobs, core.pmap(many_eventgroups, jobs, 2)):
         for clause, disc, detail in vs:
             viols.append(core.Violation(ctx.prop, clause, disc, dict(many_eventgroups=n, ttl=ttl, refresh=refresh, seed=ctx.seed), detail=detail))
+    rjobs = [(sid_for(ctx.seed), 3, 2), (sid_for(ctx.seed), 5, 0.5)]
+    nri = 0
+    for (sid_, ttl, refresh), (k, vs) in zip(rjobs, core.pmap(refresh_instant_requests, rjobs, 1)):
+        nri += k
+        for clause, disc, detail, where in vs:
+            viols.append(core.Violation(ctx.prop, clause, disc, dict(refresh_instant=where, ttl=ttl, refresh=refresh, seed=ctx.seed), detail=detail))
     core.close_pool()
     for name, cfg, depth in configs(ctx):
+        if viols and core.unknown_violation_pred(ctx.prop)([dict(clause=v.clause, disc=v.disc) for v in viols]):
+            break  # already decided by the parts above; the searches would only add to it
         res, vs, det = e1.search(ctx, Sys, cfg, depth, name)
         core.close_pool()
         details.append(det)
@@ -314,6 +395,7 @@ def check(ctx):
     cov["samples"] = samples.out()
     cov["exhaustive"] = not cov["caps_hit"]
     cov["depth_completed"] = {d["search"]: d["depth_completed"] for d in details}
+    cov["refresh_instant_cases"] = nri
     return core.finish(ctx, "model_checking", cov, viols, [
         "duplicate subscribes of the same eventgroup to the same server are excluded by the quantifier and not generated",
         "the reference server applies entries in wire order per destination",
@@ -321,6 +403,13 @@ def check(ctx):
 
 
 def replay(ctx, body):
+    if "refresh_instant" in body["case"]:
+        c = body["case"]
+        _, vs = refresh_instant_requests((sid_for(c.get("seed", ctx.seed)), c["ttl"], c["refresh"]))
+        vs = [v for v in vs if [v[3][0], list(v[3][1])] == [c["refresh_instant"][0], list(c["refresh_instant"][1])]]
+        for v in vs:
+            print("FAILS:", v[:3])
+        return 1 if vs else 0
     if "many_eventgroups" in body["case"]:
         c = body["case"]
         _, vs = many_eventgroups((sid_for(c.get("seed", ctx.seed)), c["many_eventgroups"], c["ttl"], c["refresh"]))
